@@ -1,6 +1,6 @@
 """Shared machinery for the /verif checks: scratch builds of /repo's current working
 tree, Lean build + audit, C drivers, evidence, violations and known findings."""
-import atexit, hashlib, json, os, random, re, shutil, subprocess, sys, tempfile, time
+import atexit, hashlib, json, os, random, re, shutil, signal, subprocess, sys, tempfile, time
 
 VERIF = os.path.dirname(os.path.dirname(os.path.abspath(__file__)))
 REPO = os.environ.get("ALDOR_REPO", "/repo")
@@ -26,16 +26,46 @@ def scratch(prefix="aldor-verif-"):
     _scratch_dirs.append(d)
     return d
 
+def _descendants(pid):
+    """pids of all live descendants of pid (children first), read from /proc"""
+    kids = {}
+    for d in os.listdir("/proc"):
+        if d.isdigit():
+            try:
+                st = open("/proc/%s/stat" % d).read()
+                pp = int(st[st.rindex(")") + 2:].split()[1])
+                kids.setdefault(pp, []).append(int(d))
+            except (OSError, ValueError, IndexError):
+                pass
+    out, todo = [], [pid]
+    while todo:
+        for k in kids.get(todo.pop(), []):
+            out.append(k); todo.append(k)
+    return out
+
 def run(cmd, cwd=None, inp=None, timeout=None, env=None, check=False, binary=False):
     """run a command, return (rc, stdout, stderr); rc = -signal when killed, 'TIMEOUT' on timeout"""
     e = dict(os.environ)
     if env: e.update(env)
+    p = subprocess.Popen(cmd, cwd=cwd, stdin=subprocess.PIPE if inp is not None else None,
+                         stdout=subprocess.PIPE, stderr=subprocess.PIPE, env=e,
+                         text=not binary, shell=isinstance(cmd, str),
+                         errors=None if binary else "replace")
     try:
-        p = subprocess.run(cmd, cwd=cwd, input=inp, capture_output=True, timeout=timeout, env=e,
-                           text=not binary, shell=isinstance(cmd, str),
-                           errors=None if binary else "replace")
-    except subprocess.TimeoutExpired as ex:
-        return ("TIMEOUT", ex.stdout or ("" if not binary else b""), ex.stderr or ("" if not binary else b""))
+        out, err = p.communicate(inp, timeout=timeout)
+    except subprocess.TimeoutExpired:
+        # kill the whole process tree: a compiler driver script or a generated program that
+        # loops must not outlive the check
+        for pid in _descendants(p.pid) + [p.pid]:
+            try: os.kill(pid, signal.SIGKILL)
+            except OSError: pass
+        try:
+            out, err = p.communicate(timeout=10)
+        except Exception:
+            out, err = None, None
+        empty = b"" if binary else ""
+        return ("TIMEOUT", out or empty, err or empty)
+    p = subprocess.CompletedProcess(cmd, p.returncode, out, err)
     if check and p.returncode != 0:
         raise RuntimeError("command failed (%s): %s\n%s\n%s" % (p.returncode, cmd, p.stdout[-3000:], p.stderr[-3000:]))
     return (p.returncode, p.stdout, p.stderr)
